@@ -395,4 +395,5 @@ def check(cx):
     from . import c09 as _c09
     cx.include(_c09, {"C09.4"}, "C04.11", "shared with C09.4: the persisted aborted set is written and read back with one bit layout (the "
                "loader is the inverse of the membership test); an aborted id that the loader skips is, after a reopen, neither active "
-               "nor aborted for any snapshot - its rolled-back rows are visible as committed", floor=3)
+               "nor aborted for any snapshot - its rolled-back rows are visible as committed "
+               "(ids beyond the bitmap, D19, are the known finding of C09.4 itself)", floor=3, skip=("drops-large-ids",))
